@@ -47,6 +47,7 @@ type op struct {
 	flags   agent.SignatureFlags
 	secs    int64 // kAdvance
 	name    string
+	dlen    int // kSign: length of the signed data (0 = the default 48 bytes)
 }
 
 func alphabet() []op {
@@ -196,6 +197,13 @@ func (w *world) apply(s *sut, p op) string {
 		return "ok"
 	}
 	id := w.ids[p.id]
+	// hardening (the caller owns its buffers): every slice handed to the agent is a private copy
+	// that is overwritten as soon as the call has returned, and every slice the agent hands out
+	// (listed blobs, signature blobs) is overwritten once it has been looked at. One exception:
+	// the passphrase given to Lock on the keyring ITSELF is not overwritten, because
+	// keyring.Lock keeps the caller's slice (as upstream does; not documented either way).
+	// Through ServeAgent the passphrase travels in the request and is overwritten here.
+	own := func(b []byte) []byte { return append(make([]byte, 0, len(b)+8), b...) }
 	switch p.kind {
 	case kAdd:
 		k := agent.AddedKey{PrivateKey: id.priv, Certificate: id.cert, Comment: p.comment, LifetimeSecs: p.life, ConfirmBeforeUse: p.confirm}
@@ -208,9 +216,23 @@ func (w *world) apply(s *sut, p op) string {
 	case kRemoveAll:
 		return errStr(s.ag.RemoveAll())
 	case kLock:
-		return errStr(s.ag.Lock([]byte(p.pass)))
+		pw := own([]byte(p.pass))
+		r := errStr(s.ag.Lock(pw))
+		if string(pw) != p.pass {
+			return "BAD: Lock modifies the passphrase slice it was given"
+		}
+		if s.mode != "direct" {
+			wipe(pw)
+		}
+		return r
 	case kUnlock:
-		return errStr(s.ag.Unlock([]byte(p.pass)))
+		pw := own([]byte(p.pass))
+		r := errStr(s.ag.Unlock(pw))
+		if string(pw) != p.pass {
+			return "BAD: Unlock modifies the passphrase slice it was given"
+		}
+		wipe(pw)
+		return r
 	case kList:
 		keys, err := s.ag.List()
 		if err != nil {
@@ -218,6 +240,13 @@ func (w *world) apply(s *sut, p op) string {
 		}
 		var out []string
 		seen := map[int]bool{}
+		defer func() {
+			for _, k := range keys {
+				if k != nil {
+					wipe(k.Blob)
+				}
+			}
+		}()
 		for _, k := range keys {
 			i, ok := w.byBlob[string(k.Blob)]
 			switch {
@@ -236,15 +265,25 @@ func (w *world) apply(s *sut, p op) string {
 	case kSign:
 		var sg *ssh.Signature
 		var err error
+		orig := w.msg(p)
+		data := own(orig)
 		if p.flags == 0 {
-			sg, err = s.ag.Sign(id.pub, w.data)
+			sg, err = s.ag.Sign(id.pub, data)
 		} else {
-			sg, err = s.ag.SignWithFlags(id.pub, w.data, p.flags)
+			sg, err = s.ag.SignWithFlags(id.pub, data, p.flags)
 		}
+		if string(data) != string(orig) {
+			return "BAD: Sign modifies the data it was given"
+		}
+		wipe(data)
 		if err != nil {
 			return "err"
 		}
-		return w.checkSig(id, sg)
+		r := w.checkSig(id, sg, orig)
+		if sg != nil {
+			wipe(sg.Blob)
+		}
+		return r
 	case kSigners:
 		signers, err := s.ag.Signers()
 		if err != nil {
@@ -261,11 +300,11 @@ func (w *world) apply(s *sut, p op) string {
 				return "BAD: two signers for one identity"
 			}
 			seen[i] = true
-			sg, err := sn.Sign(nil, w.data)
+			sg, err := sn.Sign(nil, own(w.data))
 			if err != nil {
 				return "BAD: a returned signer cannot sign"
 			}
-			if r := w.checkSig(w.ids[i], sg); strings.HasPrefix(r, "BAD") {
+			if r := w.checkSig(w.ids[i], sg, w.data); strings.HasPrefix(r, "BAD") {
 				return r
 			}
 			out = append(out, w.ids[i].name)
@@ -288,14 +327,14 @@ func (w *world) apply(s *sut, p op) string {
 }
 
 // checkSig verifies a signature under the named identity with the independent verifier.
-func (w *world) checkSig(id ident, sg *ssh.Signature) string {
+func (w *world) checkSig(id ident, sg *ssh.Signature, data []byte) string {
 	if sg == nil {
 		return "BAD: nil signature without error"
 	}
 	if len(sg.Rest) != 0 {
 		return "BAD: signature with trailing data"
 	}
-	if v, _ := sig.Verify(id.ref, w.data, sig.Sig{Format: sg.Format, Blob: sg.Blob}, false); v != sig.Valid {
+	if v, _ := sig.Verify(id.ref, data, sig.Sig{Format: sg.Format, Blob: sg.Blob}, false); v != sig.Valid {
 		return "BAD: signature does not verify under the named key"
 	}
 	return "sig:" + sg.Format
@@ -527,4 +566,18 @@ func coarse(o string) string {
 		return "other"
 	}
 	return o
+}
+
+func wipe(b []byte) {
+	for i := range b {
+		b[i] ^= 0xFF
+	}
+}
+
+// msg is the data a Sign operation signs.
+func (w *world) msg(p op) []byte {
+	if p.dlen == 0 {
+		return w.data
+	}
+	return w.big[:p.dlen]
 }
